@@ -4,6 +4,7 @@ import Revm.Proofs.EvmLinkLoop2
 import Revm.Proofs.EvmLinkPay
 import Revm.Proofs.EvmLinkHost
 import Revm.Props.C34
+import Revm.Proofs.EvmLinkStatic4
 /-! C01Link — the whole-transaction model `Revm.Model.Evm.transact` (C01) SATISFIES the component properties.
 
 `Evm.transact` (EvmTx / EvmFrame / EvmLoop / EvmHost) was written independently of the component models that carry the
@@ -509,5 +510,77 @@ theorem evm_sload_cold_iff (hasStorage : Addr → Bool) (spec : Nat) (pre : Addr
 example : Spec.AccessHistory.lockRun sampleWorld.db (fun _ => false) (Spec.AccessHistory.Lock.init 17 (fun _ => false)) []
     = some (Spec.AccessHistory.Lock.init 17 (fun _ => false)) ∧
     (Spec.AccessHistory.Lock.init 17 (fun _ => false)).r.js = sampleWorld.js := ⟨rfl, rfl⟩
+
+/-! ## 5. static mode (C10)
+
+C10 proves the static guard on its own opcode-level model (`Static.stepStatic`, tied to the code by the generated
+table) and the frame theorem on journal histories. Here the guard is proved of the interpreter `Evm.runLoop` runs
+(`Model.Interp`, for every machine state), and joined with the `Host` link above. -/
+
+/-- COROLLARY / LINK (C10 `static_step_no_mutation`, `static_step_actions`, `static_inherited` on `Interp.step`): in a
+static frame — any code, pc, stack, memory, gas, fork — one interpreter step asks the host no mutating question
+(SSTORE, TSTORE, LOG0–4, SELFDESTRUCT end in `StateChangeDuringStaticCall` before the host is reached), hands out no
+CREATE / CREATE2, and every call it hands out, directly or after the host's answer, has `is_static = true` and moves
+no value between two accounts (a CALL with value ends in `CallNotAllowedInsideStatic`) -/
+theorem evm_static_step_no_mutation (s : Interp.IState) (hs : s.isStatic = true) :
+    StaticOutcome (Interp.step s) := step_static s hs
+
+/-- read out: the host question of a static step is never a mutation -/
+theorem evm_static_host_op_not_mutating (s : Interp.IState) (hs : s.isStatic = true) (op : Interp.HostOp)
+    (k : Interp.HostResp → Interp.Done) (h : Interp.step s = .host op k) : mutating op = false := by
+  have := step_static s hs
+  rw [h] at this
+  cases this with
+  | host hop _ => exact hop
+
+/-- read out: an action of a static step (directly, or after any host answer) is a static call without value transfer
+between two accounts — never a create -/
+theorem evm_static_action_is_static_call (s s' : Interp.IState) (hs : s.isStatic = true) (a : Interp.Action) :
+    (Interp.step s = .pure (.action a s') → ∃ i, a = .call i ∧ StaticCall i) ∧
+    (∀ op k r, Interp.step s = .host op k → k r = .action a s' → ∃ i, a = .call i ∧ StaticCall i) := by
+  have hst := step_static s hs
+  constructor
+  · intro h
+    rw [h] at hst
+    cases hst with
+    | pure hd => cases hd with | call hi => exact ⟨_, rfl, hi⟩
+  · intro op k r h hk
+    rw [h] at hst
+    cases hst with
+    | host _ hk' =>
+      have := hk' r
+      rw [hk] at this
+      cases this with | call hi => exact ⟨_, rfl, hi⟩
+
+/-- a static machine state exists; STATICCALL's child is one -/
+example : (Interp.IState.init [0x55] [] 100000 true 17 0 0 0 {} Memory.new).isStatic = true := rfl
+
+/-- COROLLARY (C10 `static_inherited`, frame side): the frame `make_call_frame` opens runs with the `is_static` of the
+call inputs — a static frame's children are static -/
+theorem evm_static_inherited (cfg : Cfg) (w w' : World) (i : Interp.CallInputs) (mem : Memory.SharedMemory)
+    (f : JFrame) (h : makeCallFrame journalOps cfg w i mem = .ok (.frame f, w')) :
+    f.interp.isStatic = i.isStatic := makeCallFrame_isStatic h
+
+/-- COROLLARY (C10 `static_frame_state_equal` on EvmHost + Interp): every `Host` answer given to a static frame leaves
+the journaled world state (accounts, storage, transient storage, logs; not warm / cold, not touch marks) equal -/
+theorem evm_static_host_world_equal (he : HostEnv) (w w1 : World) (s : Interp.IState) (op : Interp.HostOp)
+    (k : Interp.HostResp → Interp.Done) (resp : Interp.HostResp)
+    (hs : s.isStatic = true) (hstep : Interp.step s = .host op k) (h : answer he w op = .ok (resp, w1))
+    (hbal : Static.BalOk w.db w.js) : Static.WorldEq w.db w1.js w.js :=
+  static_host_world_equal he w w1 s op k resp hs hstep h hbal
+
+/-- the full frame statement on the whole-EVM model: in every state `Evm.runLoop` passes while a static frame `f` is
+still open (`StepsAbove`: more than `rest.length` frames on the stack), the world state equals the world state when
+`f` started to run. NOT proved here; `evm_static_step_no_mutation`, `evm_static_inherited` and
+`evm_static_host_world_equal` are its instruction-level and host-level parts. Missing: (1) `is_static` of a frame is
+kept by every handler (`Model.Interp` never writes the field, but C25's `Core` relation does not track it: one lemma
+per primitive); (2) `make_call_frame` / `call_return` as journal histories (`load_account_delegated`, `checkpoint`,
+touch / transfer, `load_code`, `commit` / `revert i` with the index bookkeeping of `JournalAbs.Run.cps`), after which
+C10 `static_frame_state_equal` applies to the whole sub-run. -/
+def FullStatement_static_frame_state_equal : Prop :=
+  ∀ (cfg : Cfg) (f : JFrame) (rest : List JFrame) (w : World) (n : Next Journal.Checkpoint),
+    f.interp.isStatic = true → LoopInv (f :: rest) w → Static.BalOk w.db w.js →
+    StepsAbove cfg rest.length (.run (f :: rest) w) n →
+    ∀ stack' w', n = .run stack' w' → Static.WorldEq w.db w'.js w.js
 
 end Revm.Props.C01Link
